@@ -39,7 +39,7 @@ theorem C09_torn_down_drop_silent (w : World α ρ) (i : Nat) (x : Inst) (t : Na
 
 /-- teardown always marks the instance as torn down and releases its helper chain -/
 theorem C09_teardown_marks (w : World α ρ) (i : Nat) (x : Inst) (t : Nat) (p : Bool) :
-    (teardownInst w i x t p).1 = w.setInst i { x with tornDown := true, helper := 0 } := rfl
+    (teardownInst w i x t p).1 = w.setInst i { x with tornDown := true, helper := 0, parked := 0 } := rfl
 
 /-- **C09, `no_verify_in_drop()` disables the check at drop.** -/
 theorem C09_no_verify_disables (w : World α ρ) (i : Nat) (x : Inst) (t : Nat) (p : Bool)
